@@ -29,6 +29,7 @@ EXPLANATIONS = {
 EX = r"^function::execute::"
 EXI = r"^function::execute::<impl function::IngredientImpl<C>>::"
 EXE = r"^function::execute::"
+MH = r"^function::maybe_changed_after::<impl function::memo::MemoHeader>::"
 
 
 @ob("C12.2", ["C12", "C18"], "finalising a head whose value or metadata still changes (or while an inner head has not converged) freezes a non-fixpoint as the result", kind="ONLYIF+FLOW")
@@ -378,3 +379,18 @@ def c18_5(cx):
         e = eng.establishing_edges(l)
         reach = v.reachable(some_bb, "normal", cut_edges=e, cut_blocks={nx.bb})
         cx.check(nx.bb not in reach, "validate_same_iteration moves on to the next head only if %r" % l, nx, key="same-iter-needs %r" % l)
+
+
+@ob("C13.4", ["C13"], "a fallback-cycle participant whose memo is still provisional when a later revision asks for it is re-executed ON ITS OWN: its head's final memo validates (flattened inputs unchanged), no cycle is seen, and the participant memoizes its body value instead of its fallback - the result depends on which member was requested in which revision (finding F5)", kind="ONLYIF (provisional memos of earlier revisions are revalidated through their heads)")
+def c13_4(cx):
+    """deep_verify_memo answers Changed for a provisional memo only after the lazy finalisation through its cycle heads (validate_provisional / validate_may_be_provisional) was attempted. On today's tree it is not: known finding F5 (findings/F5/demo_f5.rs)."""
+    d = cx.fn(MH + r"deep_verify_memo$")
+    prov = CallIs(r"MemoHeader::may_be_provisional$", True, [r"^\$1$"], desc="self.may_be_provisional()")
+    eng = OnlyIf(cx.facts, d)
+    chs = [s for s in d.calls(r"^function::maybe_changed_after::VerifyResult::changed$") if eng.guarded(s, prov)]
+    cx.sites(chs, 1, "the `provisional => changed` exit of deep_verify_memo")
+    val = d.calls(r"validate_provisional$|validate_may_be_provisional$")
+    # (finalize_cycle_head in try_complete_cycle_head finalises nested HEADS only; plain participants stay provisional)
+    for s in chs:
+        ok = any(d.site_dominates(v, s) for v in val)
+        cx.check(ok, "a provisional participant of an earlier revision is revalidated through its cycle heads before it is re-executed alone", s, {"validate_calls_in_deep_verify_memo": len(val)}, key="lone-reexecution-of-participant")
